@@ -170,6 +170,17 @@ pub const PROPS: &[PropSpec] = &[
         thorough_runs: 120_000,
         rule: "byte strings (empty, 1 byte, non-UTF-8, 8191/8192/8193 bytes, 100 KB) written through POST /{topic} (fixed-length and chunked bodies split over many transport writes, some cut by a disconnect) and POST /cas, read back through GET /cas and the Store; a monitor inside append checks at the instant a frame with a hash becomes observable that its content is already retrievable; one run in six is an E1 crash-image workload (content of every visible frame after a process kill); non-trivial = content was written; distinct = distinct trace hash",
     },
+    PropSpec {
+        id: "C20",
+        engine: "e20",
+        mix: &[],
+        classes: &["import/", "http/dropped-connection"],
+        nontrivial: &[&["import:compared"], &["export:multi-context", "import:duplicate", "import:registrations-last"]],
+        must_reach: &["import:compared", "export:multi-context", "import:duplicate", "import:registrations-last", "import:rejected", "remove:live", "gc:drain-nonempty"],
+        quick_runs: 1500,
+        thorough_runs: 100_000,
+        rule: "a source store is built by a generated history (several contexts, all persistent TTL kinds, removes, imports, collector drains, shared content), settled and exported (all frames + referenced content); everything is imported into an empty store through POST /cas and POST /import in a seeded permutation with duplicates (context registrations optionally after the frames that use them), plus a NUL-topic frame and malformed JSON that must be refused whole; source and target must then have equal observation sets (ids, order, fields, per-context streams, heads, by-id lookups, content bytes) and equal usable contexts, immediately and after reopening the target; non-trivial = a comparison ran on a store with several contexts or with duplicate/late-registration imports; distinct = distinct trace hash",
+    },
 ];
 
 pub fn spec(prop: &str) -> Option<&'static PropSpec> {
@@ -217,6 +228,7 @@ fn gen_plan_inner(spec: &PropSpec, engine: &str, thorough: bool, seed: u64) -> V
         }
         "e1" => serde_json::to_value(crate::e1::generate(seed, spec.id, thorough)).unwrap(),
         "e4" => serde_json::to_value(crate::e4::generate(seed, spec.id, thorough)).unwrap(),
+        "e20" => serde_json::to_value(crate::e4::generate20(seed, thorough)).unwrap(),
         "e2" => serde_json::to_value(crate::e2::generate(seed, spec.id, thorough)).unwrap(),
         _ => Value::Null,
     }
@@ -228,6 +240,7 @@ pub fn exec_plan(engine: &str, plan: &Value, tag: &str) -> RunResult {
         "e3" => crate::e3::exec_value(plan, tag),
         "e1" => crate::e1::exec_value(plan, tag),
         "e4" => crate::e4::exec_value(plan, tag),
+        "e20" => crate::e4::exec_value20(plan, tag),
         "e2" => {
             let (mut r, choices) = crate::e2::exec_value(plan, tag);
             r.choices = choices;
